@@ -24,6 +24,48 @@ fn tail() -> Vec<u8> {
     ]
 }
 
+/// Second hostile tail: arithmetic on pointers, stack walking upwards, jumps backwards into the head.
+fn tail_b() -> Vec<u8> {
+    vec![
+        0x15, 0x14, 0x16, // POP R1 ; POP R0 ; POP R2
+        0x2C, // RETI
+        0xFE, 0x1E, // MOV ((R2+)), ((R2+))
+        0xF5, 0x40, // LDSP (R1)
+        0x5E, 0x5A, // DEC ((R2+)) ; DEC (R2+)
+        0xFF, 0xFF, 0x1F, 0xFA, // MOV (0xFA), (0xFF)
+        0xF2, 0x44, // LDFR R2
+        0x28, 0x00, // CALL 0
+        0xC6, 0xB9, // DIV R2,R1 ; MUL R1,R2
+        0x23, 0xF0, // JNS back
+        0x20, 0xE6, // JR back
+    ]
+}
+
+fn head_machine_v(head: &[u8], stack: Stacksize, prog: Programsize, variant: u8) -> Machine {
+    if variant == 0 {
+        return head_machine(head, stack, prog);
+    }
+    let mut m = Machine::new(MachineConfig::default());
+    m.raw_mut().set_stacksize(stack);
+    m.raw_mut().set_programsize(prog);
+    let ram = m.raw_mut().bus_mut().memory_mut();
+    for (i, b) in ram.iter_mut().enumerate() {
+        *b = (i as u8).wrapping_mul(101) ^ 0xE3;
+    }
+    sw::place(ram, 0, head);
+    sw::place(ram, head.len() as u8, &tail_b());
+    {
+        let regs = m.raw_mut().registers_mut();
+        regs.set(crate::mach::RN[0], 0x00);
+        regs.set(crate::mach::RN[1], 0x80);
+        regs.set(crate::mach::RN[2], 0x3F);
+        regs.set(crate::mach::RN[4], 0x0F);
+        regs.set(crate::mach::RN[5], 0x10);
+    }
+    m.raw_mut().bus_mut().write(0xF9, 0x3F);
+    m
+}
+
 fn head_machine(head: &[u8], stack: Stacksize, prog: Programsize) -> Machine {
     let mut m = Machine::new(MachineConfig::default());
     m.raw_mut().set_stacksize(stack);
@@ -169,7 +211,7 @@ fn note(bad: &mut Bad, p: &mc::PanicInfo, line: String, ctxt: String) {
     }
 }
 
-fn heads(bytes: usize, sizes: &[Stacksize], limits: &[Programsize], edges: u32) -> (u64, u64, [u64; 3], Bad) {
+fn heads(bytes: usize, sizes: &[Stacksize], limits: &[Programsize], edges: u32, variant: u8) -> (u64, u64, [u64; 3], Bad) {
     let n = 1usize << (8 * bytes);
     let res = mc::par_ranges(n, 1024, |rg| {
         let mut bad = Bad::new();
@@ -182,7 +224,7 @@ fn heads(bytes: usize, sizes: &[Stacksize], limits: &[Programsize], edges: u32) 
                 for &l in limits {
                     runs += 1;
                     let r = mc::catch(|| {
-                        let mut m = head_machine(&head, s, l);
+                        let mut m = head_machine_v(&head, s, l, variant);
                         let mut e = 0;
                         while e < edges && m.state() == State::Running {
                             m.raw_mut().trigger_clock_edge();
@@ -197,7 +239,7 @@ fn heads(bytes: usize, sizes: &[Stacksize], limits: &[Programsize], edges: u32) 
                             total_edges += e as u64;
                             ends[st as usize] += 1;
                         }
-                        Err(p) => note(&mut bad, &p, format!("head bytes={} stack={:?} limit={:?} edges={}", mc::hex(&head), s, l, edges), "running a program head".into()),
+                        Err(p) => note(&mut bad, &p, format!("head bytes={} stack={:?} limit={:?} edges={} variant={}", mc::hex(&head), s, l, edges, variant), "running a program head".into()),
                     }
                 }
             }
@@ -556,9 +598,10 @@ pub fn run() {
             let kv = mc::kv(l);
             let head = mc::unhex(&kv["bytes"].replace(',', " "));
             let edges = mc::num(&kv["edges"]) as u32;
+            let variant = kv.get("variant").map(|v| mc::num(v) as u8).unwrap_or(0);
             for &s in &SIZES {
                 let r = mc::catch(|| {
-                    let mut m = head_machine(&head, s, Programsize::Size(255));
+                    let mut m = head_machine_v(&head, s, Programsize::Size(255), variant);
                     for _ in 0..edges {
                         m.raw_mut().trigger_clock_edge();
                     }
@@ -622,9 +665,17 @@ pub fn run() {
     };
     // (a)
     let limits_all = [Programsize::Size(255), Programsize::Size(3), Programsize::Auto];
-    let (r2, e2, ends2, b2) = heads(2, &SIZES, &limits_all, 300);
+    let (mut r2, mut e2, mut ends2, b2) = heads(2, &SIZES, &limits_all, 300, 0);
     merge(&mut bad, b2);
-    let (r3, e3, ends3, b3) = if quick { (0, 0, [0; 3], Bad::new()) } else { heads(3, &SIZES, &[Programsize::Size(255)], 200) };
+    // second register preset / RAM pattern / tail, every interrupt source enabled and IE set
+    let (r2b, e2b, ends2b, b2b) = heads(2, &SIZES, if quick { &limits_all[..1] } else { &limits_all }, 300, 1);
+    merge(&mut bad, b2b);
+    r2 += r2b;
+    e2 += e2b;
+    for i in 0..3 {
+        ends2[i] += ends2b[i];
+    }
+    let (r3, e3, ends3, b3) = if quick { (0, 0, [0; 3], Bad::new()) } else { heads(3, &SIZES, &[Programsize::Size(255)], 200, 0) };
     merge(&mut bad, b3);
     // (b)
     let (nb, bb) = addresses();
@@ -643,7 +694,7 @@ pub fn run() {
     ctx.set("evaluations", r2 + r3 + nb + trans + pruns);
     ctx.set("distinct_nontrivial", states + pdig + ends2[0] + ends2[1] + ends3[0] + ends3[1]);
     ctx.set("phase_sweep", format!("{} programs (75 of C04's interrupt programs + 11 hostile ones) x every clock edge 0..230 x {} stimuli + ordered pairs of key presses in a window: {} runs, {} edges, {} distinct observation digests", phase_programs().len(), stimuli().len() - 1, pruns, pedges, pdig));
-    ctx.set("rule", "(a) every 2-byte program head (thorough: also every 3-byte head) followed by a hostile tail, x 5 stack sizes x 3 program-size limits, clocked to a halt or the edge bound, then all getters read and one more edge; (b) every bus address x every value through a 7-instruction program and through direct Bus calls, after 6 board configurations x 2 register presets; (c) every stimulus sequence to the depth from 8 program states, all getters read and one edge after each event; (d) every stimulus before every clock edge of interrupt-using and hostile programs, and pairs of key presses, getters read on the edges around the stimulus, Debug formatted at the end. Oracle: no panic. distinct_nontrivial = distinct stimulus-sequence observation digests + runs that ended in a halt");
+    ctx.set("rule", "(a) every 2-byte program head (thorough: also every 3-byte head) followed by a hostile tail (two tails / register presets / RAM patterns, the second with every interrupt source enabled), x 5 stack sizes x 3 program-size limits, clocked to a halt or the edge bound, then all getters read and one more edge; (b) every bus address x every value through a 7-instruction program and through direct Bus calls, after 6 board configurations x 2 register presets; (c) every stimulus sequence to the depth from 8 program states, all getters read and one edge after each event; (d) every stimulus before every clock edge of interrupt-using and hostile programs, and pairs of key presses, getters read on the edges around the stimulus, Debug formatted at the end. Oracle: no panic. distinct_nontrivial = distinct stimulus-sequence observation digests + runs that ended in a halt");
     ctx.set("exhaustive", true);
     ctx.set("bounds", format!("2-byte heads: {} runs / {} edges; 3-byte heads: {} runs / {} edges; address x value cases: {}; stimulus sequences depth {} over {} events from 8 states: {} transitions", r2, e2, r3, e3, nb, if quick { 3 } else { 4 }, stimuli().len(), trans));
     ctx.set("head_runs_ending", Json::Arr(vec![Json::Str(format!("2-byte: Stopped={} ErrorStopped={} Running={}", ends2[0], ends2[1], ends2[2])), Json::Str(format!("3-byte: Stopped={} ErrorStopped={} Running={}", ends3[0], ends3[1], ends3[2]))]));
